@@ -388,9 +388,9 @@ UNCOVERED = [
     'unwrapped basis function over the domain) is the classical antiderivative identity (cited): the harness integrates every '
     'basis function exactly, independently of the model; what IS proved: the clamped closed form (c09_integral_formula_clamped) '
     'and that the stored values of every general space sum to the domain length (c09_integrals_general_sum)',
-    'all weights equal dx on uniform periodic spaces of degree != 3 (general path): certificate form only '
-    '(c09_weights_equal_cert, hypotheses checked per instance on the model); the uniform-cubic path is proved with the checked '
-    'inverse as only hypothesis (c09_weights_equal_cubic)',
+    'equal weights on uniform periodic spaces are proved for EXACTLY uniform knots and points (c09_weights_equal_uniform_periodic, '
+    'c09_weights_equal_cubic; per-instance hypothesis: the checked inverse); the binary64 knots / Greville points of the code are '
+    'uniform only up to rounding, there the weights are compared with dx under the bound and exactly on "nice" spaces',
     'rounding, LAPACK / SuperLU transposed solves are not modelled (bounds)',
 ]
 
